@@ -817,7 +817,7 @@ pub fn c12(tier: Tier) -> i32 {
     let run = Run::new("C12", tier);
     assert!(vclock::self_test());
     let mut outs = vec![];
-    let depth = if tier.thorough() { 5 } else { 3 };
+    let depth = if tier.thorough() { 5 } else { 4 };
     for (label, rx, range) in [("rx35N80W", (35.0, -80.0), 500.0), ("rx89N10E.range50", (89.0, 10.0), 50.0)] {
         let o = explore(&run, &format!("C12/{label}/d{depth}"), tracker(alphabet_c12(), rx, range, 1_000_000_000, 12), depth);
         outs.push((label.to_string(), o));
@@ -865,7 +865,7 @@ pub fn c13(tier: Tier) -> i32 {
         outs.push(("polar-jump".into(), o));
     }
     // deep single-aircraft histories
-    let dd = if tier.thorough() { 8 } else { 6 };
+    let dd = if tier.thorough() { 9 } else { 7 };
     let rx0 = (35.0, -80.0);
     let o = explore(&run, &format!("C13/deep/d{dd}"), tracker(alphabet_c13_deep(rx0, 2000.0), rx0, 2000.0, 1_000_000_000, 13), dd);
     outs.push(("deep".into(), o));
@@ -904,7 +904,7 @@ pub fn c14(tier: Tier) -> i32 {
 pub fn c15(tier: Tier) -> i32 {
     let run = Run::new("C15", tier);
     assert!(vclock::self_test());
-    let depth = if tier.thorough() { 6 } else { 5 };
+    let depth = if tier.thorough() { 9 } else { 6 };
     let mut outs = vec![];
     for t in [10u64, 1, 0] {
         let o = explore(&run, &format!("C15/T{t}/d{depth}"), tracker(alphabet_c15(t), (35.0, -80.0), 500.0, 0, 15), depth);
